@@ -174,7 +174,7 @@ def print_assumptions(module, theorems, workdir):
 # ---------------------------------------------------------------- shards
 
 SHARD_HEAD = '''From Coq Require Import ZArith List Bool.
-From Concepts Require Import Base.Res Spec.Context Run.Common {module}.
+From Concepts Require Import Base.Res Spec.Context Model.Definition {imports} Run.Common {module}.
 Import ListNotations.
 Open Scope Z_scope.
 Definition cases : list {module_short}.case := [
@@ -185,7 +185,7 @@ Print bad.
 '''
 
 
-def run_shards(module, case_terms, workdir, shard_size=300, max_bytes=250_000, timeout=600):
+def run_shards(module, case_terms, workdir, shard_size=300, max_bytes=250_000, timeout=600, imports=''):
     """Evaluate `check` on every case inside Coq.  Returns list of (case index, [sub indices])."""
     short = module.split('.')[-1]
     shards, cur, cur_bytes, start = [], [], 0, 0
@@ -201,7 +201,7 @@ def run_shards(module, case_terms, workdir, shard_size=300, max_bytes=250_000, t
     for k, (start, terms) in enumerate(shards):
         p = os.path.join(workdir, f'cases_{k}.v')
         with open(p, 'w') as f:
-            f.write(SHARD_HEAD.format(module=module, module_short=short, cases=';\n'.join(terms)))
+            f.write(SHARD_HEAD.format(module=module, module_short=short, imports=imports, cases=';\n'.join(terms)))
         paths.append((p, start))
     procs, results = [], []
     pending = list(paths)
